@@ -47,7 +47,17 @@ def obligations(tier):
                 rr['failed'] = [dict(id=x['function'], desc=desc, kind='violation')]
                 # replay on the real interpreter when the call has no uninterpreted callback
                 args = c.get('concrete_args')
-                if args is not None and all(a is not None for a in args):
+                if c.get('range_view'):
+                    # the caller's range view was advanced: replay with a concrete view of the same length on the real interpreter
+                    L = x.get('L') if x.get('L') is not None else int(re.search(r'length (\d+)', x['case']).group(1))
+                    calls = {'for_each': 'for_each(r, fun(e) { })', 'sum': 'sum(r)', 'contains': 'contains(r, 0)', 'foldl': 'foldl(r, fun(a, b) { a + b }, 0)', 'any_of': 'any_of(r, fun(e) { false })'}
+                    if L >= 1 and x['function'] in calls:
+                        scr = 'var v = [%s]\nvar r = range(v)\n%s\nprint(to_string(r.empty()))\n' % (', '.join(str(i + 1) for i in range(L)), calls[x['function']])
+                        p, lines = run_script(scr, 'cex_view_' + re.sub(r'\W', '_', x['function']))
+                        rr['replay'] = dict(script=p, real_output=lines[:3], specification='false (the view still has its %d elements)' % L)
+                        if lines and lines[0] == 'false': rr['verdict'] = 'UNCONFIRMED'; rr['why'] = 'real interpreter leaves the view unchanged: presym semantics wrong for %s' % calls[x['function']]
+                        else: rr['cex'] = p
+                elif args is not None and all(a is not None for a in args):
                     call = '%s(%s)' % (x['function'].split('::')[-1], ', '.join(chai_value(a) if not isinstance(a, list) else chai_value(a) for a in args))
                     p, lines = run_script('print(to_string(%s))\n' % call, 'cex_' + re.sub(r'\W', '_', x['function']))
                     want = chai_value(c.get('concrete_expected'))
